@@ -23,7 +23,6 @@ type finding struct {
 const (
 	sigNullRows   = "field-filter|plain-selection|returns-rows-whose-selected-fields-are-all-null"
 	sigPrevLater  = "desc|fill(previous)|filled-from-the-later-bucket"
-	sigDescSel    = "desc|first-last|reports-another-point-of-the-bucket"
 	sigFillSplit  = "desc|bytime-fill-split-across-chunks|bucket-with-data-reported-as-empty"
 	sigPrevLeak   = "fill(previous)-split-across-chunks|empty-bucket-filled-with-another-value-than-the-previous-bucket's"
 	sigLimitCut   = "select-star|limit-smaller-than-series-count|rows-are-not-the-first-of-the-ordered-answer"
@@ -167,6 +166,10 @@ func attribute(q *querySpec, cl cell, rows []mrow, schema map[string]byte, obs *
 		if os == nil || len(os.Rows) != len(es.Groups) {
 			return unexplained
 		}
+		phantomInSeries := false
+		for _, g := range es.Groups {
+			phantomInSeries = phantomInSeries || g.Phantom
+		}
 		for gi, g := range es.Groups {
 			row := os.Rows[gi]
 			if len(row) != 2 {
@@ -192,10 +195,13 @@ func attribute(q *querySpec, cl cell, rows []mrow, schema map[string]byte, obs *
 				return unexplained
 			}
 			switch {
-			case cl.Desc && (q.Func == "first" || q.Func == "last") && !g.Empty && pointOf(g.Points, ot, ov):
-				causes[sigDescSel] = fmt.Sprintf("{%s} %s: got %s, admissible %s", es.Key, "row "+strconv.Itoa(gi), rowText(row), altsText(g.Alts, 1))
 			case cl.Desc && split && !g.Empty && isFillValue(q, ov, os, gi, es.Kinds[1]):
 				causes[sigFillSplit] = fmt.Sprintf("{%s} row %d: got %s, the bucket has data: %s", es.Key, gi, rowText(row), altsText(g.Alts, 1))
+			case hasField && g.Phantom && ov.Kind == 0:
+				causes[sigPhantomAgg] = fmt.Sprintf("{%s} row %d: got %s, admissible %s; rows that pass the filter but have no value of %s exist in this window", es.Key, gi, rowText(row), altsText(g.Alts, 1), q.Field)
+			case hasField && q.Fill == "previous" && g.Empty && phantomInSeries:
+				// the null of a phantom window is sometimes taken as the previous value, sometimes skipped
+				causes[sigPhantomAgg] = fmt.Sprintf("{%s} row %d: got %s, admissible %s; fill(previous) around a window whose passing rows have no value of %s", es.Key, gi, rowText(row), altsText(g.Alts, 1), q.Field)
 			case q.Fill == "previous" && split && g.Empty:
 				causes[sigPrevLeak] = fmt.Sprintf("{%s} row %d: got %s, admissible %s", es.Key, gi, rowText(row), altsText(g.Alts, 1))
 			case q.Fill == "previous" && g.Empty && !g.Leading && gi > 0 && sameCell(os.Rows[gi-1][1], row[1]) && len(causes) > 0:
@@ -217,15 +223,6 @@ func attribute(q *querySpec, cl cell, rows []mrow, schema map[string]byte, obs *
 }
 
 func sameCell(a, b any) bool { return cellText(a) == cellText(b) }
-
-func pointOf(points [][]model.Value, t int64, v model.Value) bool {
-	for _, p := range points {
-		if p[0].I == t && valSame(p[1], v, false) {
-			return true
-		}
-	}
-	return false
-}
 
 // isFillValue: the observed value is what the fill mode puts into an empty bucket.
 func isFillValue(q *querySpec, v model.Value, os *obsSeries, gi int, kind byte) bool {
